@@ -1,0 +1,13 @@
+//go:build verif
+
+package types
+
+// Contracts (verification only; see /verif/DESIGN.md).
+
+// Genesis validation is a filter in front of InitGenesis; what InitGenesis files does not depend on it (trusted: no
+// postcondition is assumed of it).
+//@ func ValidateGenesis(data)
+//@   property C14
+//@   trusted
+//@   returns err
+//@ end
